@@ -50,6 +50,9 @@ func one(r *ev.Run, env *rt.Env, p progen.Program, c *counters, verbose bool) {
 	atomic.AddInt64(&c.trans, int64(res.Transitions))
 	r.Eval(1)
 	feat := diffo.Features(p.Prog)
+	if p.Fam == "F2operand" {
+		feat = "jump-out-of-an-operand" // break / continue taken while operands of an enclosing expression are pending
+	}
 	for _, pr := range res.Problems {
 		sig := "static:" + pr.Kind
 		if feat != "" {
@@ -159,6 +162,7 @@ func Check(r *ev.Run, replay string) {
 		progen.F4c(2, y)
 		progen.F8(false, y)
 		progen.F9(y)
+		progen.F2Operand(y)
 		if r.Thorough() {
 			progen.F8(true, y)
 		}
